@@ -301,3 +301,7 @@ Definition size_fun (pat : list nat) (i : nat) : nat :=
   | [] => 4096%nat
   | _ => Nat.max 1 (nth (i mod List.length pat) pat 1%nat)
   end.
+
+(* number of Reads the caller's loop is given: more than the characters that can reach the pipe
+   (Text() at most triples a token's bytes; proved sufficient in Proofs/ArmorStreamInst.v) *)
+Definition fuel_for (doc : bytes) : nat := S (S (S (3 * List.length doc))).
